@@ -20,7 +20,7 @@ def plan(tier, seed):
 
 
 def thresholds(tier):
-  t = {"designs": 120, "designs_with_2_ff_orders": 60, "register_comparisons": 20000, "ff_preedge_comparisons": 20000, "mode_runs": 1000, "bank_designs": 6, "bank_register_comparisons": 200}
+  t = {"designs": 120, "designs_with_2_ff_orders": 60, "register_comparisons": 20000, "ff_preedge_comparisons": 20000, "mode_runs": 1000, "bank_designs": 6, "bank_register_comparisons": 200, "negidx_designs": 3}
   if tier == "thorough":
     t = {k: v * 15 for k, v in t.items()}
   return t
@@ -117,10 +117,55 @@ def run_bank_case(sh, case):
     G.unload(mod)
 
 
+def run_negidx_case(sh, case):
+  """a shift register whose stages are written one by one through LITERAL indices counted from either end ( s.hist[-1], s.hist[0],
+  s.hist[-2] ... ) and only read by update blocks; in struct and Bits flavours"""
+  rng = sh.rng("negidx", case)
+  H = rng.randrange(3, 7); w = rng.choice([4, 8, 16])
+  struct = rng.random() < 0.4
+  L = ["from pymtl3 import *"]
+  if struct: L += ["@bitstruct", "class HP:", f"  x: mk_bits({w})", "  y: mk_bits(2)"]
+  T = "HP" if struct else f"mk_bits({w})"
+  L += ["class HTop(Component):", "  def construct(s):", f"    s.din = InPort({w})", f"    s.hist = [Wire({T}) for _ in range({H})]",
+        f"    s.ho = [OutPort({w}) for _ in range({H})]", "    @update_ff", "    def sh():"]
+  def idx(i): return str(i - H) if rng.random() < 0.6 else str(i)         # the same element from the end or from the start
+  rd = lambda i: f"s.hist[{idx(i)}]" + (".x" if struct else "")
+  stm = [f"      s.hist[{idx(H - 1)}] <<= " + (f"HP(s.din, 1)" if struct else "s.din")]
+  for i in range(H - 1):
+    stm.append(f"      s.hist[{idx(i)}] <<= s.hist[{idx(i + 1)}]")
+  rng.shuffle(stm)
+  L += stm + ["    @update", "    def rdo():"] + [f"      s.ho[{i}] @= {rd(i)}" for i in range(H)]
+  src = "\n".join(L) + "\n"
+  mod = G.load_source(src, "c07n")
+  try:
+    seq = [rng.getrandbits(w) for _ in range(rng.randrange(H + 2, H + 8))]
+    for mode in ("default", "simple", "mamba", "unroll"):
+      top = mod.HTop()
+      try:
+        simmon.apply_mode(top, mode, rng); top.sim_reset()
+      except Exception as e:
+        sh.violation("shift-register-design-not-simulatable", {"mode": mode, "error": repr(e)[:300], "source": src}, case=("negidx", case)); continue
+      ref = [int(top.ho[i]) for i in range(H)]
+      for cyc, din in enumerate(seq):
+        top.din @= din
+        top.sim_tick()
+        ref = ref[1:] + [din]
+        got = [int(top.ho[i]) for i in range(H)]
+        sh.count("negidx_register_comparisons", H)
+        if got != ref:
+          sh.violation("registers-written-through-literal-indices-differ-from-next-state-function", {"mode": mode, "cycle": cyc, "got": got, "expected": ref,
+                       "source": src}, case=("negidx", case)); return
+    sh.count("negidx_designs"); sh.fp("negidx", H, w, struct)
+  finally:
+    G.unload(mod)
+
+
 def run_shard(sh):
   q = sh.tier == "quick"
   for case in range(sh.params.get("banks", 8)):
     run_bank_case(sh, case)
+  for case in range(4):
+    run_negidx_case(sh, case)
   for case in range(sh.params["designs"]):
     if sh.only is not None and str(case) != str(sh.only).strip('"'):
       continue
